@@ -108,6 +108,7 @@ function relayQG(QG<int> o, int i, int g, float a, qubit[] r) -> void { o.ogate(
 function relayQU(QU o, int i, int g, float a, qubit q, qubit p) -> void { o.ogate(i, g, a); }
 function relayQD(QD o, int i, int g, float a, qubit q, qubit d) -> void { o.ogate2(i, g, a); }
 @quantum function fgate(qubit t, int g, float a) -> void { if (g == 0) { h(t); } if (g == 1) { x(t); } if (g == 2) { y(t); } if (g == 3) { z(t); } if (g == 4) { rx(t, a); } if (g == 5) { ry(t, a); } if (g == 6) { rz(t, a); } }
+@quantum function frot(qubit t, int g, float a) -> void { final float th = a; final float neg = 0.0f - th; if (g == 4) { rx(t, th); } if (g == 5) { ry(t, th); } if (g == 6) { rz(t, 0.0f - neg); } }
 @quantum function fcx(qubit c, qubit t) -> void { cx(c, t); }
 @quantum function fm(qubit t) -> bit { bit r0 = measure t; return r0; }
 @quantum function fms(qubit t) -> void { measure t; }
@@ -183,6 +184,9 @@ def render(beh):
                         lines.append("relay%s(v%d, %d, %d, %s, v%d);" % ("Q2" if var["cls"] == "Q2" else "QG", st["v"], st["e"] - 1, GIDX[g], ang, others_a[-1][0]))
                     else:
                         lines.append("v%d.ogate(%d, %d, %s);" % (st["v"], st["e"] - 1, GIDX[g], ang))
+            elif path == "fn" and g in ROT and n % 2 == 1:
+                # the angle reaches the gate through final locals of the callee (fresh on every activation)
+                lines.append("frot(%s, %d, %s);" % (ref, GIDX[g], ang))
             elif path == "fn":
                 lines.append("fgate(%s, %d, %s);" % (ref, GIDX[g], ang))
             elif path == "static":
@@ -349,8 +353,10 @@ def compare(beh, info, res, tol=2e-5, log_on=True, echo_on=True):
             same = abs(e["t"] - angle_expr(s["k"], s.get("m", 0))[1]) < 1e-9
         if not same:
             # a gate that reached the simulator with another name, index or angle than the program wrote is C01's business too
-            out.append(("C01,C03" if s["g"] not in ("measure", "reset") else "C03",
-                        "operation #%d on the simulator is %s, spec %s (wrong qubit index or gate)" % (i + 1, e, s)))
+            # ... a reset / measurement of another qubit than the program named is the business of C04 / C02 as well
+            kinds = {s["g"], e.get("g")}
+            props = "C03" + (",C04" if "reset" in kinds else "") + (",C02" if "measure" in kinds else "") + (",C01" if kinds - {"measure", "reset"} else "")
+            out.append((props, "operation #%d on the simulator is %s, spec %s (wrong qubit index or gate)" % (i + 1, e, s)))
             break
         if s["g"] in ("measure", "reset") and e.get("out") != s["out"]:
             prop = "C02" if s["g"] == "measure" else "C04"
